@@ -41,7 +41,7 @@ def run(ctx, chk):
     FIN = prog.enum("cbor_decoder_status")["CBOR_DECODER_FINISHED"]
     ps = P.Executor(prog, eff, loop_bound=2).run("cbor_load")
     chk.floor("C14.window", "paths of cbor_load (up to 3 decoder calls)", len(ps), 40)
-    nd = 0
+    nd = ncont = 0
     for k, pa in enumerate(ps):
         decodes = pa.calls("cbor_stream_decode")
         for i, d in enumerate(decodes):
@@ -59,13 +59,34 @@ def run(ctx, chk):
             okr = r is not None and (r == ("c", 0) or (r[0] == "ld" and r[1] == RES and r[2] == read_off) or r[0] == "op")
             chk.ob("C14.window", "path %d call %d: window is (source + r, size - r)" % (k, i), oks and okr, d.ins.loc(), fn=f.name,
                    key="win:%d:%d" % (k, i), detail="" if oks and okr else "source arg %s, size arg %s" % (DR.fmt_term(a_src), DR.fmt_term(a_size)))
-        # continuation: between two decode calls the last fact must be stack.size > 0; on the root return it must be false
+        # continuation: between two decode calls the last test of the stack size says "non-empty"; on the root return
+        # it says "empty" (decided on the path's facts, however the loop is spelled: do-while, while + flag, goto)
+        def nonempty(t, truth):
+            """True / False if fact (t, truth) says the local decoding stack is non-empty / empty, else None"""
+            if t[0] == "icmp" and t[3] == ("c", 0) and isinstance(t[2], tuple) and t[2][0] == "ld" and t[2][2] == size_off \
+                    and t[2][1][0] == "alloca":
+                if t[1] in ("ugt", "ne"):
+                    return bool(truth)
+                if t[1] in ("eq", "ule"):
+                    return not truth
+            return None
+        for i in range(len(decodes) - 1):
+            last = None
+            for t, truth, _ in pa.facts[decodes[i].nfacts:decodes[i + 1].nfacts]:
+                v = nonempty(t, truth)
+                if v is not None:
+                    last = v
+            chk.ob("C14.stop", "path %d: decoder call %d follows only because the stack is non-empty" % (k, i + 1), last is True,
+                   decodes[i + 1].ins.loc(), fn=f.name, key="cont:%d:%d" % (k, i),
+                   detail="" if last is True else ("the loop continues although the stack is empty (an item is complete)" if last is False
+                                                    else "the loop continues without testing the stack"))
+            ncont += 1
         if pa.ret != ("c", 0):
             last = None
             for t, truth, _ in pa.facts:
-                if t[0] == "icmp" and t[1] == "ugt" and t[3] == ("c", 0) and isinstance(t[2], tuple) and t[2][0] == "ld" and t[2][2] == size_off \
-                        and t[2][1][0] == "alloca":
-                    last = truth
+                v = nonempty(t, truth)
+                if v is not None:
+                    last = v
             ok = last is False and pa.events[-1].kind == "ret"
             # nothing but loads between the last decoder call's bookkeeping and the return
             idx = max(i for i, e in enumerate(pa.events) if e.kind == "call" and e.callee == "cbor_stream_decode")
@@ -74,20 +95,11 @@ def run(ctx, chk):
             chk.ob("C14.stop", "path %d: root returned as soon as the stack is empty (%d decoder calls)" % (k, len(decodes)), ok, where,
                    fn=f.name, key="stop:%d" % k, detail="" if ok else "loop exit condition / trailing calls: %s" % tail_calls)
     chk.floor("C14.window", "decoder calls on paths", nd, 60)
-    # loop latch: condition is a test of stack.size only
+    chk.floor("C14.stop", "loop continuations on paths", ncont, 20)
     latches = [(t, h) for t, h in f.back_edges() if any(i.op == "call" and i.callee == "cbor_stream_decode"
                                                        for b in f.blocks if b.id in f.loops().get(h.id, ()) for i in b.insts)]
     if len(latches) != 1:
         raise AnalysisBroken("cbor_load: expected one decode loop, found %d" % len(latches))
-    tail, head = latches[0]
-    cond = tail.term.operands[0] if tail.term.op == "br" and len(tail.succs) == 2 else None
-    ok = False
-    if isinstance(cond, Inst) and cond.op == "icmp":
-        l, r = cond.operands
-        root, steps = apath(l) if isinstance(l, Inst) and l.op == "load" else ((None,), ())
-        ok = isinstance(l, Inst) and l.op == "load" and root[0] == "inst" and f.insts[root[1]].op == "alloca" and \
-            "struct._cbor_stack" in f.insts[root[1]].d.get("alloc_type", "") and steps == (("off", size_off), ("load",)) and isinstance(r, Const) and r.v == 0
-    chk.ob("C14.stop", "loop continuation is a test of stack.size alone", ok, tail.term.loc(), fn=f.name, key="latch")
     # accumulate: stores to result->read
     ns = 0
     for k, pa in enumerate(ps):
